@@ -669,9 +669,31 @@ def open_deck(case, stats):
             return None
     if kind == "gen":
         data = M.build_deck(case[1])
+        if VALIDATE_GENERATED[0]:
+            _validate_generated(data, case[1])
         with sut("C13:open-generated"):
             return Presentation(io.BytesIO(data))
     raise HarnessError("unknown case kind %r" % (kind,))
+
+
+VALIDATE_GENERATED = [False]   # switched on in gen shard 0: generated parts must be schema-valid
+
+
+def _validate_generated(data, spec):
+    """harness self-check (exit 2, never a VIOLATION): the rewritten parts are valid against the
+    ISO/IEC 29500 transitional schemas, i.e. the generated layouts are in-domain input"""
+    from vlib import xsdoracle
+
+    pkg = opcmodel.Pkg.read(data)
+    names = ["/ppt/slideLayouts/slideLayout%d.xml" % no for no, _ in spec["layouts"]]
+    if spec.get("master") is not None:
+        names.append("/ppt/slideMasters/slideMaster1.xml")
+    if spec.get("notes") is not None:
+        names += ["/ppt/notesMasters/notesMaster1.xml", "/ppt/presentation.xml"]
+    for n in names:
+        errs = xsdoracle.errors(pkg.members[n])
+        if errs:
+            raise HarnessError("generated part %s is not schema-valid: %r" % (n, sorted(errs)[:3]))
 
 
 def run_case(case, stats=None):
@@ -720,7 +742,9 @@ def _ph_item(types, wnone=1):
 
 
 _OTHER = st.fixed_dictionaries({"k": st.sampled_from(["sp", "cxn", "grp"]), "n": _NAMES})
-_LAYOUT_POP = st.lists(st.one_of(*([_ph_item(M.LAYOUT_TYPES)] * 6 + [_OTHER])), max_size=8)
+_LAYOUT_ITEM = st.one_of(*([_ph_item(M.LAYOUT_TYPES)] * 6 + [_OTHER]))
+_LAYOUT_POP = st.one_of(st.lists(_LAYOUT_ITEM, max_size=8),
+                        st.lists(_LAYOUT_ITEM, min_size=3, max_size=9))
 _MASTER_POP = st.lists(st.one_of(*([_ph_item(["title", "body", "dt", "ftr", "sldNum"], 0)] * 6
                                    + [_OTHER])), max_size=6)
 _NOTES_POP = st.lists(st.one_of(*([_ph_item(M.NOTES_TYPES, 0)] * 8 + [_OTHER])), max_size=7)
@@ -769,6 +793,48 @@ def corpus_cases(decks, max_ops):
                      ).map(list)
 
 
+# ------------------------------------------------------------------ directed cases
+
+def _ph(t, idx=None, g=None, orient=None, sz=None, n=""):
+    return {"k": "ph", "t": t, "idx": idx, "orient": orient, "sz": sz, "g": g, "n": n,
+            "prompt": False}
+
+
+def directed_cases():
+    """hand-written cases run in every tier (each class the generators aim at, once, fixed)"""
+    full = [111, 222, 333, 444, "full"]
+    zero = [0, 0, 0, 0, "full"]
+    notes_all = [_ph("hdr", None, full, sz="quarter"), _ph("dt", 1, full),
+                 _ph("sldImg", 2, None), _ph("body", 3, [5, 6, 7, 8, "full"], sz="quarter"),
+                 _ph("ftr", 4, full, sz="quarter"), _ph("sldNum", 5, zero, sz="quarter"),
+                 _ph("body", 6, None, orient="vert")]
+    mixed = [_ph("title", None, None, n="Title 1"),
+             _ph("body", 1, [1, 2, 3, 4, "full"], orient="vert", sz="half", n="Title 1"),
+             _ph("dt", 10, None, sz="half"), _ph("ftr", 11, None, sz="quarter"),
+             _ph("sldNum", 12, full, sz="quarter"), {"k": "grp", "n": "Title 1"},
+             _ph("pic", 13, None), _ph("title", 14, zero), _ph(None, 15, [9, 9, 9, 9, "off"]),
+             _ph("tbl", 16, [9, 9, 9, 9, "ext"]), _ph("chart", 17, [9, 9, 9, 9, "empty"])]
+    every = [_ph(t, 20 - k, None if k % 2 else [k, k + 1, k + 2, k + 3, "full"])
+             for k, t in enumerate(M.LAYOUT_TYPES)]
+    ops1 = [["add", 1], ["rename", 0, 0, 0, 0], ["clone_into", 0, 0], ["rename", 0, 1, 1, 0],
+            ["clone_into", 0, 1], ["notes", 0], ["reopen"], ["add", 1], ["override", 1, 0, 0, 0, 5, 6],
+            ["shape", 0, "table"], ["text", 0, 0, "t"], ["slidename", 1, "s"], ["notes", 1],
+            ["reopen"], ["add", 0]]
+    return [
+        ["gen", {"layouts": [[2, mixed]], "master": None, "notes": notes_all, "idstep": 1}, ops1],
+        ["gen", {"layouts": [[2, mixed]], "master": [_ph("body", 1, full), _ph("body", 2, zero)],
+                 "notes": None, "idstep": 3}, ops1],
+        ["gen", {"layouts": [[1, every], [7, every[::-1]]], "master": [], "notes": [],
+                 "idstep": 1}, [["add", 0], ["add", 6], ["notes", 0], ["reopen"], ["add", 6]]],
+        ["gen", {"layouts": [[3, every]], "master": [_ph("title", None, zero), _ph("body", 1, full),
+                                                      _ph("dt", 2, full), _ph("ftr", 3, None)],
+                 "notes": [_ph("body", 1, None), _ph("body", 1, full)], "idstep": 1},
+         [["add", 2], ["clone_into", 0, 11], ["clone_into", 0, 12], ["notes", 0], ["reopen"]]],
+        ["gen", {"layouts": [], "master": None, "notes": None, "idstep": 1},
+         [["add", i] for i in range(11)] + [["notes", 3], ["reopen"], ["notes", 10], ["add", 5]]],
+    ]
+
+
 # ------------------------------------------------------------------ jobs
 
 N_ENUM = 16
@@ -778,10 +844,11 @@ N_GEN = 32
 
 def jobs(tier):
     th = tier == "thorough"
-    js = [{"kind": "corpus-enum", "shard": i} for i in range(N_ENUM)]
+    js = [{"kind": "directed"}]
+    js += [{"kind": "corpus-enum", "shard": i} for i in range(N_ENUM)]
     js += [{"kind": "corpus-hyp", "shard": i, "n": 400 if th else 25, "max_ops": 20 if th else 8}
            for i in range(N_CHYP)]
-    js += [{"kind": "gen", "shard": i, "n": 6000 if th else 200, "max_ops": 14 if th else 8}
+    js += [{"kind": "gen", "shard": i, "n": 3000 if th else 200, "max_ops": 14 if th else 8}
            for i in range(N_GEN)]
     return js
 
@@ -832,6 +899,11 @@ def run_job(job, seed, tier, rec, known):
             _note(rec, case, stats)
 
         return run_plain(fn, cases, rec=rec, known=known)
+    if kind == "directed":
+        def fn(case):
+            _note(rec, case, run_case(case))
+
+        return run_plain(fn, directed_cases(), rec=rec, known=known)
     if kind == "corpus-hyp":
         decks = corpus.corpus_decks()[job["shard"]::N_CHYP]
 
@@ -841,8 +913,13 @@ def run_job(job, seed, tier, rec, known):
         return hyp_search(fn, corpus_cases(decks, job["max_ops"]), seed=seed,
                           max_examples=job["n"], rec=rec, known=known)
     if kind == "gen":
+        VALIDATE_GENERATED[0] = job["shard"] == 0
+
         def fn(case):
             _note(rec, case, run_case(case))
+            if VALIDATE_GENERATED[0]:
+                rec.extra["generated_decks_xsd_validated"] = rec.extra.get(
+                    "generated_decks_xsd_validated", 0) + 1
 
         return hyp_search(fn, gen_cases(job["max_ops"]), seed=seed, max_examples=job["n"],
                           rec=rec, known=known)
